@@ -6,6 +6,7 @@ CORRS = {
     "k1": corr_rt.k1,
     "cc": corr_cc.cc,
     "k3": corr_it.k3,
+    "k2": corr_rt.k2,
 }
 
 
@@ -78,6 +79,8 @@ def main(argv):
     def impl_level(name, d):
         if name == "k1":
             return bool(d.get("impl_vs_spec", True))
+        if name == "k2":
+            return bool(d.get("impl_deeper"))
         if name in ("cc:k6a", "cc:k6d", "k3:native"):
             return True
         if name == "cc:k6e":
@@ -147,6 +150,16 @@ def main(argv):
             else:
                 still = False
             kf_report.append({"id": k["id"], "state": "reproduces" if still else "no longer reproduces", "observed": v})
+            if still:
+                known_lines.append(f"KNOWN-FINDING: property={pid} {k['id']} {k['what']}")
+
+    for k in known:
+        if k.get("kind") == "k2":
+            g = stage_results.get("k2", {}).get("growth_witness", "")
+            import re as _re
+            m = _re.search(r"per_iteration=([0-9.]+)", g)
+            still = bool(m) and float(m.group(1)) > 0.5
+            kf_report.append({"id": k["id"], "state": "reproduces" if still else "no longer reproduces", "observed": g})
             if still:
                 known_lines.append(f"KNOWN-FINDING: property={pid} {k['id']} {k['what']}")
 
